@@ -297,6 +297,11 @@ def patch_modules():
             sample = self.q.queue[-1]
             sample._sid = sid
             sim.sample_key[(sample.client_id, sample.task.name, sample.absolute_time)] = sid
+            from esrally import metrics as _m
+
+            sim.sample_info[sid] = {"task": sample.task.name, "abs": sample.absolute_time, "rel": sample.relative_time, "period": sample.time_period,
+                                    "ops": sample.total_ops, "unit": sample.total_ops_unit, "normal": sample.sample_type == _m.SampleType.Normal,
+                                    "tput": sample.throughput}
         sim.note("sample", sid=sid, accepted=accepted, worker=sim.current)
 
     driver.Sampler.add = observed_add
@@ -307,18 +312,24 @@ def patch_modules():
         raw = [getattr(x, "_sid", -1) for x in self.raw_samples]
         before = len(self.metrics_store.docs) if self.metrics_store is not None and hasattr(self.metrics_store, "docs") else 0
         sim.fed_buffer = None
+        sim.tput_buffer = None
         try:
             return orig_pp(self)
         finally:
             docs = self.metrics_store.docs[before:] if self.metrics_store is not None and hasattr(self.metrics_store, "docs") else []
-            sim.note("postprocess", raw=raw, stored=sim.sids_of_docs(docs), fed=sim.fed_buffer if sim.fed_buffer is not None else [])
+            sim.note("postprocess", raw=raw, stored=sim.sids_of_docs(docs), fed=sim.fed_buffer if sim.fed_buffer is not None else [],
+                     tput=sim.tput_buffer, tput_docs=sum(1 for d in docs if d.get("name") == "throughput"))
 
     driver.Driver.post_process_samples = observed_pp
     orig_calc = driver.ThroughputCalculator.calculate
 
     def observed_calc(self, samples, *a, **k):
+        from esrally import metrics as _m
+
         SIM.fed_buffer = [getattr(x, "_sid", -1) for x in samples]
-        return orig_calc(self, samples, *a, **k)
+        r = orig_calc(self, samples, *a, **k)
+        SIM.tput_buffer = [[t.name, [[abs_t, rel_t, st == _m.SampleType.Normal, v, u] for (abs_t, rel_t, st, v, u) in vals]] for t, vals in r.items()]
+        return r
 
     driver.ThroughputCalculator.calculate = observed_calc
 
@@ -539,6 +550,8 @@ class Sim:
         self.store_fault_armed = False
         self.sid_counter = 0
         self.sample_key = {}
+        self.sample_info = {}
+        self.tput_buffer = None
         self.fed_buffer = None
         from esrally import metrics as _metrics
 
